@@ -174,9 +174,10 @@ func (seg *Segment) AmbiguousPrefix(s2 *Segment) int {
 // 字符串节点以及以 - 开头的忽略名称的节点，不会写入任何参数。
 func (seg *Segment) Captures() bool { return seg.Type != String && !seg.ignoreName }
 
-func (seg *Segment) AmbiguousLen() int16 {
-	return seg.ambiguousLength + int16(len(seg.Name))
-}
+// AmbiguousLen 当前节点在路由项中所占的长度
+//
+// ambiguousLength 不包含 {name:} 中的冒号，不能用其计算长度。
+func (seg *Segment) AmbiguousLen() int16 { return int16(len(seg.Value)) }
 
 // Similarity 与 s1 的相似度，-1 表示完全相同，0 表示完全不同，
 // 其它大于等于零的值，越大，表示相似度越高。
